@@ -184,4 +184,107 @@ theorem piLoop_step (t : Bytes) (p : Pos) (body rest : Bytes)
     rw [if_pos trivial, peek_drop hd1]; simp only [Res.ok_bind]
     rw [if_pos trivial, hq3 (t.length + 2) (by omega)]; simp only [Res.ok_bind]
 
+
+/-- white space in front of a `<` that does not open a comment: `skipSpace` stops exactly there -/
+theorem skipSpace_ws {t : Bytes} {p : Pos} {ws : Bytes} {d : UInt8} {r : Bytes}
+    (h : t.drop p.pos = ws ++ 60 :: d :: r) (hws : ∀ b ∈ ws, isSpace b = true) (hd : d ≠ 33) (hp : p.pos ≤ t.length) :
+    ∃ q, skipSpace t p = .ok (q, none) ∧ q.pos = p.pos + ws.length := by
+  have hlen := drop_le h hp
+  have hdm : t.drop (p.pos + ws.length) = 60 :: d :: r := drop_append h
+  obtain ⟨hmlt, hm60, _⟩ := drop_cons hdm
+  refine skipLoop_spaces_gen t (p.pos + ws.length) hmlt (by rw [hm60]; decide) ?_ (t.length + 2) p none (by omega) (by omega) ?_
+  · intro f q ce hq
+    exact skipLoop_noop_lt f ce (by rw [hq]; exact hdm) hd
+  · intro j hj1 hj2
+    have := drop_getD h (show j - p.pos < ws.length by omega)
+    rw [show p.pos + (j - p.pos) = j by omega] at this
+    rw [this]
+    exact hws _ (getD_mem (by omega))
+
+theorem prologue_head : ∀ (pis : List (Bytes × Bytes)) (d : UInt8) (r : Bytes), d ≠ 33 →
+    ∃ d' r', prologue pis ++ 60 :: d :: r = 60 :: d' :: r' ∧ d' ≠ 33 := by
+  intro pis d r hd
+  cases pis with
+  | nil => exact ⟨d, r, rfl, hd⟩
+  | cons x pis =>
+    obtain ⟨body, ws⟩ := x
+    exact ⟨63, body ++ 63 :: 62 :: (ws ++ (prologue pis ++ 60 :: d :: r)), by simp [prologue], by decide⟩
+
+theorem piLoop_stop {t : Bytes} {p : Pos} {d : UInt8} {r : Bytes} (f : Nat)
+    (h : t.drop p.pos = 60 :: d :: r) (hd : d ≠ 63) : piLoop t (f + 1) p = .ok p := by
+  obtain ⟨_, _, hdrop⟩ := drop_cons h
+  simp only [piLoop]
+  rw [peek_drop h]; simp only [Res.ok_bind]
+  rw [if_pos trivial, peek_drop hdrop]; simp only [Res.ok_bind]
+  rw [if_neg hd]
+
+/-- the loop over processing instructions runs through a whole prologue and stops at the `<` behind it -/
+theorem piLoop_prologue (t : Bytes) (d : UInt8) (rest : Bytes) (hd63 : d ≠ 63) (hd33 : d ≠ 33) :
+    ∀ (pis : List (Bytes × Bytes)) (p : Pos) (f : Nat), prologueOk pis →
+      t.drop p.pos = prologue pis ++ 60 :: d :: rest → PosOK t p → t.length - p.pos < f →
+      ∃ r, piLoop t f p = .ok r ∧ r.pos = p.pos + (prologue pis).length ∧ PosOK t r := by
+  intro pis
+  induction pis with
+  | nil =>
+    intro p f _ h hp hf
+    obtain ⟨f, rfl⟩ : ∃ g, f = g + 1 := ⟨f - 1, by omega⟩
+    exact ⟨p, piLoop_stop f (by simpa [prologue] using h) hd63, by simp [prologue], hp⟩
+  | cons x pis ih =>
+    obtain ⟨body, ws⟩ := x
+    intro p f hok h hp hf
+    obtain ⟨hb, hws, hrest⟩ := hok
+    obtain ⟨f, rfl⟩ : ∃ g, f = g + 1 := ⟨f - 1, by omega⟩
+    have h' : t.drop p.pos = [60, 63] ++ (body ++ ([63, 62] ++ (ws ++ (prologue pis ++ 60 :: d :: rest)))) := by
+      rw [h]; simp [prologue]
+    obtain ⟨q, hq1, hq2, hq3⟩ := piLoop_step t p body _ h' hb
+    have hple : p.pos ≤ t.length := hp.1
+    have h'' : t.drop p.pos = ([60, 63] ++ (body ++ [63, 62])) ++ (ws ++ (prologue pis ++ 60 :: d :: rest)) := by
+      rw [h']; simp
+    have hlen := drop_le h'' hple
+    have hpre : ([60, 63] ++ (body ++ [63, 62]) : Bytes).length = 2 + body.length + 2 := by simp; omega
+    rw [hpre] at hlen
+    have hdq : t.drop q.pos = ws ++ (prologue pis ++ 60 :: d :: rest) := by
+      have := drop_append h''
+      rw [hpre] at this
+      rw [hq1, show p.pos + 2 + body.length + 2 = p.pos + (2 + body.length + 2) by omega]
+      exact this
+    obtain ⟨d', r', hhead, hd'⟩ := prologue_head pis d rest hd33
+    rw [hhead] at hdq
+    obtain ⟨q2, hsk, hq2pos⟩ := skipSpace_ws hdq hws hd' (by omega)
+    have hq2ok : PosOK t q2 := by
+      have hg := skipSpace_good t q (hq2 hp)
+      rw [hsk] at hg
+      exact hg.1
+    have hdq2 : t.drop q2.pos = prologue pis ++ 60 :: d :: rest := by
+      rw [hq2pos, drop_append hdq, hhead]
+    obtain ⟨r, hr1, hr2, hr3⟩ := ih q2 f hrest hdq2 hq2ok (by omega)
+    refine ⟨r, ?_, ?_, hr3⟩
+    · rw [hq3 f, hsk]; simp only [Res.ok_bind]; exact hr1
+    · rw [hr2, hq2pos, hq1]
+      simp [prologue]
+      omega
+
+/-- `parseDoc` on white space, a prologue of processing instructions and a `<` that starts the root:
+    the root is parsed at the cursor behind the prologue, whose line bookkeeping is right -/
+theorem parseDoc_prologue (ws0 : Bytes) (pis : List (Bytes × Bytes)) (d : UInt8) (rest : Bytes)
+    (hws0 : ∀ b ∈ ws0, isSpace b = true) (hok : prologueOk pis) (hd63 : d ≠ 63) (hd33 : d ≠ 33) :
+    ∃ r : Pos, r.pos = ws0.length + (prologue pis).length ∧
+      PosOK (ws0 ++ (prologue pis ++ 60 :: d :: rest)) r ∧
+      parseDoc (ws0 ++ (prologue pis ++ 60 :: d :: rest)) = parseRootAt (ws0 ++ (prologue pis ++ 60 :: d :: rest)) r := by
+  generalize ht : ws0 ++ (prologue pis ++ 60 :: d :: rest) = t
+  obtain ⟨d', r', hhead, hd'⟩ := prologue_head pis d rest hd33
+  have h0 : t.drop (Pos.mk 1 0 0).pos = ws0 ++ 60 :: d' :: r' := by rw [← ht, hhead]; simp
+  obtain ⟨p0, hsk, hp0⟩ := skipSpace_ws h0 hws0 hd' (Nat.zero_le _)
+  have hp0ok : PosOK t p0 := by
+    have hg := skipSpace_good t _ (PosOK.init t)
+    rw [hsk] at hg
+    exact hg.1
+  have hdp0 : t.drop p0.pos = prologue pis ++ 60 :: d :: rest := by
+    rw [hp0, drop_append h0, hhead]
+  obtain ⟨r, hr1, hr2, hr3⟩ := piLoop_prologue t d rest hd63 hd33 pis p0 (t.length + 2) hok hdp0 hp0ok (by omega)
+  refine ⟨r, by rw [hr2, hp0]; simp, hr3, ?_⟩
+  unfold parseDoc parseRootAt
+  rw [hsk]; simp only [Res.ok_bind]
+  rw [hr1]; simp only [Res.ok_bind]
+
 end Nstd.Xml
